@@ -11,7 +11,7 @@ from __future__ import annotations
 from .. import campaign, codec_eval, core
 
 SPEC = {
-    "n_values": 12,
+    "n_values": 20,
     "n_c": 2,
     "n_cpp": 2,
     "py": True,
@@ -33,8 +33,8 @@ def run(ctx: core.Ctx):
     ]
     spec = dict(SPEC)
     if not ctx.quick:
-        spec.update(n_values=40, n_c=4, n_cpp=5)
-    campaign.run_property(ctx, spec, 12 if ctx.quick else 120, codec_eval.eval_c01)
+        spec.update(n_values=60, n_c=4, n_cpp=5)
+    campaign.run_property(ctx, spec, 14 if ctx.quick else 120, codec_eval.eval_c01)
     ctx.require("dom.storage", 50)
     ctx.require("dom.invalid", 10)
     ctx.require("lang.py", 50)
